@@ -1,0 +1,81 @@
+//go:build verif
+// +build verif
+
+package capacity
+
+import (
+	"sort"
+
+	"massnet.org/mass/poc/engine"
+)
+
+// Read-only accessors for the verification harness (/verif). Compiled only with -tags verif.
+
+type VerifSpace struct {
+	SID     string
+	Field   engine.WorkSpaceState // ws.state
+	InIndex []bool                // membership in the per-state maps, indexed by state
+	InAll   bool
+	Using   bool
+	RootDir string
+}
+
+type VerifKeeper struct {
+	Spaces   []VerifSpace
+	List     []string // workSpaceList order
+	ChanLen  int
+	Queue    []string // queued space ids (unordered view)
+	Popped   string
+	PoppedWM bool
+}
+
+// VerifState returns the keeper's internal bookkeeping (taken under the state lock).
+func (sk *SpaceKeeper) VerifState() VerifKeeper {
+	sk.stateLock.RLock()
+	defer sk.stateLock.RUnlock()
+	var out VerifKeeper
+	seen := map[string]*WorkSpace{}
+	for s := engine.FirstState; s <= allState; s++ {
+		if int(s) >= len(sk.workSpaceIndex) {
+			break
+		}
+		for sid, ws := range sk.workSpaceIndex[s].Items() {
+			seen[sid] = ws
+		}
+	}
+	for _, ws := range sk.workSpaceList {
+		seen[ws.id.String()] = ws
+		out.List = append(out.List, ws.id.String())
+	}
+	for sid, ws := range seen {
+		v := VerifSpace{SID: sid, Field: ws.state, Using: ws.using, RootDir: ws.rootDir}
+		for s := engine.FirstState; s <= engine.LastState; s++ {
+			v.InIndex = append(v.InIndex, sk.workSpaceIndex[s].Has(sid))
+		}
+		v.InAll = sk.workSpaceIndex[allState].Has(sid)
+		out.Spaces = append(out.Spaces, v)
+	}
+	sort.Slice(out.Spaces, func(i, j int) bool { return out.Spaces[i].SID < out.Spaces[j].SID })
+	out.ChanLen = len(sk.newQueuedWorkSpaceCh)
+	sk.queue.Lock()
+	items := make([]interface{}, 0)
+	prios := make([]float32, 0)
+	for !sk.queue.Prque.Empty() {
+		it, p := sk.queue.Prque.Pop()
+		items = append(items, it)
+		prios = append(prios, p)
+	}
+	for i, it := range items {
+		sk.queue.Prque.Push(it, prios[i])
+		out.Queue = append(out.Queue, it.(*queuedWorkSpace).ws.id.String())
+	}
+	if sk.queue.poppedItem != nil {
+		out.Popped = sk.queue.poppedItem.ws.id.String()
+		out.PoppedWM = sk.queue.poppedItem.wouldMining
+	}
+	sk.queue.Unlock()
+	return out
+}
+
+// VerifPlotterMaxChanSize exposes the capacity of the plotter's request channel.
+const VerifPlotterMaxChanSize = plotterMaxChanSize
